@@ -159,6 +159,8 @@ var rnsNamePool = []string{
 	"jkl", "x.jkl", "abcd.jkl", "abc.ibc", "hello.xyz", "foo.hello.jkl", "zz-top.jkl",
 	// labels that contain the other TLD, or their own
 	"ibcfan.jkl", "myibc.jkl", "jklfan.ibc", "jkl.ibc", "ibc.jkl", "xjkl.jkl",
+	// labels that end in letters of their own TLD, next to the label without them (a suffix is not a set of characters)
+	"carl.jkl", "car.jkl", "paul.jkl", "pau.jkl", "a.ibc",
 }
 
 func lowerName(s string) string { return strings.ToLower(s) }
@@ -488,7 +490,16 @@ func runRns(seed int64, histories, steps int, out *Emitter) {
 			pre := c.rnsAbs(g.tracked)
 			res := c.Deliver(msg)
 			post := c.rnsAbs(g.tracked)
-			out.Emit(map[string]interface{}{"mod": "rns", "hist": hi, "i": i, "h": c.H, "pre": pre, "op": op, "ok": res.OK, "err": res.Err, "post": post})
+			rec := map[string]interface{}{"mod": "rns", "hist": hi, "i": i, "h": c.H, "pre": pre, "op": op, "ok": res.OK, "err": res.Err, "post": post}
+			if rg, isReg := op["register"].(map[string]interface{}); isReg && res.OK {
+				// "afterwards the name resolves to the registrant": what the Name query answers for the name as it was sent
+				var to interface{}
+				if qr, err := c.A.RnsKeeper.Name(sdk.WrapSDKContext(c.Ctx()), &rnstypes.QueryName{Name: fmt.Sprint(rg["rawName"])}); err == nil {
+					to = qr.Name.Value
+				}
+				rec["resolvesTo"] = to
+			}
+			out.Emit(rec)
 			out.Count("rns."+opKind(op), res.OK)
 		}
 		if withGenesis {
